@@ -104,12 +104,9 @@ def takeWordRes3 (b : Bytes) : R (Nat × Bytes) := do
   check (allZero r) .cmdReserved
   pure (w, b)
 
-def parseCmd (b : Bytes) : R (Cmd × Bytes) := do
-  let (magic, b) ← takeU 4 b
-  check (magic == 0x55AAAA55) .cmdMagic
-  let (w1, b) ← takeU 4 b
-  let (w2, b) ← takeU 4 b
-  let (tag, b) ← takeU 4 b
+/-- the tag-specific part of a command, after its 16-byte header `55AAAA55 | word1 | word2 | tag`.
+    An unknown tag is REFUSED (`cmdTag`): the decoder never skips bytes it does not understand. -/
+def parseTail (tag w1 w2 : Nat) (b : Bytes) : R (Cmd × Bytes) := do
   if tag == 1 then
     let (m, b) ← takeWordRes3 b
     pure (.erase w1 w2 m, b)
@@ -165,6 +162,16 @@ def parseCmd (b : Bytes) : R (Cmd × Bytes) := do
     pure (.reset, b)
   else throw .cmdTag
 
+def parseCmd (b : Bytes) : R (Cmd × Bytes) := do
+  let (magic, b) ← takeU 4 b
+  check (magic == 0x55AAAA55) .cmdMagic
+  let (w1, b) ← takeU 4 b
+  let (w2, b) ← takeU 4 b
+  let (tag, b) ← takeU 4 b
+  parseTail tag w1 w2 b
+
+/-- a command sequence: `parseCmds fuel bytes`.  Every accepted command consumes at least 16 bytes (`parseCmd_progress`), so fuel =
+    number of remaining bytes is never exhausted (`parseCmds_fuel_suffices`); the only loop of the decoder is this structural recursion. -/
 def parseCmds : Nat → Bytes → R (List Cmd)
   | 0, b => if b.isEmpty then pure [] else throw .fuel
   | f + 1, b =>
